@@ -649,6 +649,16 @@ def case_charvalue(p):
     acc = Accessory(1)
     serv = acc.add_service("0000FE00-0000-1000-8000-0026BB765291")
     ch = serv.add_char(p["uuid"], value=base64.b64encode(data).decode(), format="tlv8", perms=["pr"])
+    # the base64 text as other encoders legitimately write it (RFC 2045: lines of 76 characters; a trailing newline): the same message
+    for how, text in (("line-wrapped", base64.encodebytes(data).decode()), ("trailing-newline", base64.b64encode(data).decode() + "\n"), ("crlf-wrapped", base64.encodebytes(data).decode().replace("\n", "\r\n"))):
+        ch2 = serv.add_char(p["uuid"], value=text, format="tlv8", perms=["pr"])
+        try:
+            v2 = ch2.value
+            got2 = [ts.plain(cls, v) for v in v2] if p["array"] else [ts.plain(cls, v2)]
+        except Exception as e:  # noqa: BLE001
+            return [(f"char-value-raises:{type(e).__name__}:{cls.__name__}:base64-text-{how}", {"error": str(e)[:200]})]
+        if got2 != trees:
+            return [(f"char-value-differs:{cls.__name__}:base64-text-{how}", {"want_items": len(trees), "got_items": len(got2)})]
     try:
         val = ch.value
         got = [ts.plain(cls, v) for v in val] if p["array"] else [ts.plain(cls, val)]
